@@ -424,6 +424,8 @@ impl Tour {
         Some(pos)
     }
 
+    /// position of the latest node that departs strictly before the given time (a node departing
+    /// exactly at that time might still be reachable if no shunting is needed)
     fn latest_departure_before(
         &self,
         time: DateTime,
@@ -431,14 +433,14 @@ impl Tour {
         right: Position,
     ) -> Option<Position> {
         if left + 1 == right {
-            if self.network.node(self.nodes[left]).start_time() <= time {
+            if self.network.node(self.nodes[left]).start_time() < time {
                 Some(left)
             } else {
                 None
             }
         } else {
             let mid = left + (right - left) / 2;
-            if self.network.node(self.nodes[mid]).start_time() <= time {
+            if self.network.node(self.nodes[mid]).start_time() < time {
                 self.latest_departure_before(time, mid, right)
             } else {
                 self.latest_departure_before(time, left, mid)
@@ -446,6 +448,8 @@ impl Tour {
         }
     }
 
+    /// position of the earliest node that arrives strictly after the given time (a node arriving
+    /// exactly at that time might still reach a node starting then if no shunting is needed)
     fn earliest_arrival_after(
         &self,
         time: DateTime,
@@ -453,14 +457,14 @@ impl Tour {
         right: Position,
     ) -> Option<Position> {
         if left + 1 == right {
-            if self.network.node(self.nodes[left]).end_time() >= time {
+            if self.network.node(self.nodes[left]).end_time() > time {
                 Some(left)
             } else {
                 None
             }
         } else {
             let mid = left + (right - left) / 2;
-            if self.network.node(self.nodes[mid - 1]).end_time() >= time {
+            if self.network.node(self.nodes[mid - 1]).end_time() > time {
                 self.earliest_arrival_after(time, left, mid)
             } else {
                 self.earliest_arrival_after(time, mid, right)
